@@ -13,6 +13,13 @@ SNIP_KEYS = ['a', 'xx', 'tm', '!!!', 'p', 'bd', 'm']
 VAR_KEYS = ['lang', 'myvar', 'charset']
 
 
+# the documented per-syntax defaults (pinned copy of the option part of SYNTAX_CONFIG: a changed table entry must not move the oracle)
+SYNTAX_DOC = {'xhtml': {'output.selfClosingStyle': 'xhtml'}, 'xml': {'output.selfClosingStyle': 'xml'}, 'xsl': {'output.selfClosingStyle': 'xml'},
+              'jsx': {'jsx.enabled': True, 'markup.attributes': {'class': 'className', 'class*': 'styleName', 'for': 'htmlFor'}, 'markup.valuePrefix': {'class*': 'styles'}},
+              'vue': {'markup.attributes': {'class*': ':class'}}, 'svelte': {'jsx.enabled': True}, 'sass': {'stylesheet.after': ''},
+              'stylus': {'stylesheet.between': ' ', 'stylesheet.after': ''}}
+
+
 def planted(kind, key, layer):
     if kind == 'o':
         if key == 'markup.attributes': return {'class': 'cls-' + layer}
@@ -110,6 +117,22 @@ def run(case, prop):
                     c2 = copy.deepcopy(c); c2.setdefault('variables', {}); c2.setdefault('snippets', {})['probevar'] = 'p[title=${%s}]' % key
                     o = expand('probevar', c2, copy.deepcopy(gc))
                     if val not in o: viol.append('expand-variable| expand(probevar) with snippet probevar = p[title=${%s}], config %r, global %r gives %r: the snippet body does not see the effective value %r' % (key, c2, gc, o, val))
+        # documented defaults of the syntax: with no more specific layer the resolved option is the documented one
+        for k_, dv in SYNTAX_DOC.get(sy, {}).items():
+            if k_ not in c.get('options', {}) and k_ not in gc.get(ty, {}).get('options', {}) and k_ not in gc.get(sy, {}).get('options', {}):
+                if cfg.options.get(k_) != dv: viol.append('syntax-default| syntax %r: option %r resolves to %r, the documented default of the syntax is %r' % (sy, k_, cfg.options.get(k_), dv))
+        # a configuration resolved beforehand (with its global layers) expands like the dictionaries it was resolved from
+        if ty == 'markup' and sy not in ('pug', 'slim', 'haml'):
+            probe = 'p[title=${myvar}]>em+xx/'
+            o1 = expand(probe, copy.deepcopy(c), copy.deepcopy(gc)); o2 = expand(probe, Config(copy.deepcopy(c), copy.deepcopy(gc)))
+            if o1 != o2: viol.append('resolved-config| expand(%r, Config(config, global)) = %r, with the dictionaries themselves %r  (config %r, global %r)' % (probe, o2, o1, c, gc))
+            # the effective `jsx.enabled` decides how a prefixed value is written, whatever the syntax is called
+            c3 = copy.deepcopy(c); c3.setdefault('options', {}); c3['options'].setdefault('markup.valuePrefix', {'class*': 'styles'})
+            cfg3 = Config(copy.deepcopy(c3), copy.deepcopy(gc))
+            if isinstance(cfg3.options.get('markup.valuePrefix'), dict) and cfg3.options['markup.valuePrefix'].get('class*') == 'styles':
+                o3 = expand('div..bar', c3, copy.deepcopy(gc))
+                want3 = '{styles.bar}' if cfg3.options.get('jsx.enabled') else '"styles.bar"'
+                if want3 not in o3: viol.append('expand-option| expand(div..bar, %r, %r) = %r: the effective jsx.enabled is %r, the prefixed value must be written %s' % (c3, gc, o3, cfg3.options.get('jsx.enabled'), want3))
         expand('a', c, gc)
     except RecursionError: raise
     except Exception as e:
